@@ -12,6 +12,7 @@ CONSTANTS MaxEntries, Structs
 
 AlgV == [t |-> "alg", neg |-> TRUE, a |-> <<6>>]
 CsObj == [P |-> <<<<GoInt("int64", 1), AlgV>>>>, U |-> <<<<GoInt("int", 4), GoBytes(<<7>>)>>>>, sig |-> <<204, 221>>]
+CsObj2 == [P |-> <<<<GoInt("int64", 1), [t |-> "alg", neg |-> TRUE, a |-> <<7>>]>>>>, U |-> <<>>, sig |-> <<238, 1>>]
 NestedMap == [t |-> "map", ps |-> <<<<GoInt("int64", 2), GoStr(<<120>>)>>, <<GoInt("int", 1), GoBytes(<<1>>)>>, <<GoStr(<<107>>), GoNeg("int8", 0)>>,
                                    <<GoNeg("int64", 24), [t |-> "arr", xs |-> <<GoInt("uint8", 1), [t |-> "bool", v |-> FALSE]>>]>>>>]
 Pool ==
@@ -20,8 +21,12 @@ Pool ==
     <<GoStr(<<97>>), GoInt("uint16", 300)>>, <<GoInt("int32", 1000), [t |-> "arr", xs |-> <<GoInt("int", 1), GoStr(<<122>>), [t |-> "nil"]>>]>>,
     <<GoStr(<<97, 97>>), NestedMap>>, <<GoInt("int", 10), [t |-> "bool", v |-> TRUE]>>, <<GoNeg("int64", 65536), GoInt("uint32", 70000)>>,
     <<GoInt("uint64", 3), GoStr(<<97, 47, 98>>)>> }
-UPool == Pool \cup { <<GoInt("int64", 7), [t |-> "csig", x |-> CsObj]>>, <<GoInt("int", 11), [t |-> "csigs", xs |-> <<CsObj, CsObj>>]>> }
+UPool == Pool \cup { <<GoInt("int64", 7), [t |-> "csig", x |-> CsObj]>>, <<GoInt("int", 11), [t |-> "csigs", xs |-> <<CsObj, CsObj2, CsObj>>]>> }
 
+\* protected maps {1: alg, 4: kid} whose encoding is exactly 23 / 24 / 255 / 256 bytes long (bstr head boundaries)
+KidOf(n) == <<GoInt("int64", 4), GoBytes([i \in 1..n |-> i % 251])>>
+SizedBuckets == { <<<<GoInt("int64", 1), AlgV>>, KidOf(k)>> : k \in {18, 19, 249, 250} }
+BigPayload == [i \in 1..5000 |-> (i * 7) % 256]
 Buckets(pool) == { SetToSeq(s) : s \in { x \in SUBSET pool : Cardinality(x) <= MaxEntries /\ Cardinality(x) >= 1 } }
 Pay == <<1, 2>>
 SigB == <<170, 187>>
@@ -31,6 +36,8 @@ Embed(struct, b) ==
     [] struct = "unprot"  -> [kind |-> "unprot", m |-> [P |-> <<>>, U |-> b]]
     [] struct = "sign1P"  -> [kind |-> "sign1", m |-> [P |-> b, U |-> <<>>, payload |-> Pay, sig |-> SigB]]
     [] struct = "sign1U"  -> [kind |-> "sign1", m |-> [P |-> Fixed, U |-> b, payload |-> Pay, sig |-> SigB]]
+    [] struct = "sign1Big" -> [kind |-> "sign1", m |-> [P |-> b, U |-> <<>>, payload |-> BigPayload, sig |-> SigB]]
+    [] struct = "signBig"  -> [kind |-> "sign", m |-> [P |-> b, U |-> <<>>, payload |-> BigPayload, sigs |-> <<[P |-> Fixed, U |-> <<>>, sig |-> SigB]>>]]
     [] struct = "sign1uP" -> [kind |-> "sign1u", m |-> [P |-> b, U |-> <<>>, payload |-> NilPayload, sig |-> SigB]]
     [] struct = "sigP"    -> [kind |-> "sig", m |-> [P |-> b, U |-> <<>>, sig |-> SigB]]
     [] struct = "csigU"   -> [kind |-> "csig", m |-> [P |-> Fixed, U |-> b, sig |-> SigB]]
@@ -41,7 +48,8 @@ IsU(struct) == struct \in {"unprot", "sign1U", "csigU"}
 VARIABLE st
 Init == st = [phase |-> 0]
 PickStruct == st.phase = 0 /\ \E s \in Structs : st' = [phase |-> 1, struct |-> s]
-PickBucket == st.phase = 1 /\ \E b \in Buckets(IF IsU(st.struct) THEN UPool ELSE Pool) : st' = [phase |-> 2, struct |-> st.struct, b |-> b]
+PickBucket == st.phase = 1 /\ \E b \in Buckets(IF IsU(st.struct) THEN UPool ELSE Pool) \cup (IF IsU(st.struct) THEN {} ELSE SizedBuckets) :
+                 st' = [phase |-> 2, struct |-> st.struct, b |-> b]
 Next == PickStruct \/ PickBucket
 Spec == Init /\ [][Next]_st
 
